@@ -1248,9 +1248,16 @@ class _iterinfo(object):
 
         if rr._byeaster:
             self.eastermask = [0]*(self.yearlen+7)
-            eyday = easter.easter(year).toordinal()-self.yearordinal
-            for offset in rr._byeaster:
-                self.eastermask[eyday+offset] = 1
+            # A day matches when it lies `offset` days from some Easter, which
+            # for large offsets is the Easter of a neighbouring year.
+            span = max(abs(offset) for offset in rr._byeaster)//365 + 1
+            for eyear in range(year-span, year+span+1):
+                if not (datetime.MINYEAR <= eyear <= datetime.MAXYEAR):
+                    continue
+                eyday = easter.easter(eyear).toordinal()-self.yearordinal
+                for offset in rr._byeaster:
+                    if 0 <= eyday+offset < self.yearlen+7:
+                        self.eastermask[eyday+offset] = 1
 
         self.lastyear = year
         self.lastmonth = month
